@@ -55,3 +55,36 @@ def _map_vars(node: 'val', varmap: 'dict') -> 'tuple':
     ensures(result == map_node(node, varmap))
     invariant(0, lambda: newbranches == map_branches(branches[:_i], varmap))
     invariant(0, lambda: var == node[0] and branches == node[1])
+
+
+# ---- the flat node list (Tree.nodes) ---------------------------------------------------------------
+
+@spec
+def branch_nodes(bs: 'list') -> 'list':
+    if len(bs) == 0:
+        return []
+    if is_atomic(bs[-1][1]):
+        return branch_nodes(bs[:-1])
+    return branch_nodes(bs[:-1]) + nodes_of(bs[-1][1])
+
+
+@spec
+def nodes_of(t: 'val') -> 'list':
+    """the node itself (unless its variable is None) followed by its descendants, depth first"""
+    if t[0] is None:
+        return branch_nodes(t[1])
+    return [t] + branch_nodes(t[1])
+
+
+@contract('penman.tree:_nodes')
+def _nodes(node: 'val') -> 'list':
+    requires(wf_tnode(node))
+    ensures(result == nodes_of(node))
+    invariant(0, lambda: ns == ([] if var is None else [node]) + branch_nodes(branches[:_i]))
+    invariant(0, lambda: var == node[0] and branches == node[1])
+
+
+@contract('penman.tree:Tree.nodes')
+def Tree_nodes(self: 'Tree') -> 'list':
+    requires(wf_tnode(self.node))
+    ensures(result == nodes_of(self.node))
